@@ -499,12 +499,13 @@ PROPS["C15"]["streams"] = [CW, CW_SLO]
 PROPS["C12"]["streams"] = PROPS["C12"]["streams"] + [CW_SLO]
 
 # ------------------------------------------------------------------ conditionals with a side output (a sink on one arm only)
+# C07 only, greedy only, no zero-length tasks, no enforcement/drop: a sink on an untaken arm makes the simulator
+# regard the whole graph as cancelled, and whenever a placement of the taken arm then fires before its task is
+# ready the rest of the graph is abandoned (KF-C05-arm-only-sink-graph-abandoned; seen through C05 at VERIF_SEED=1
+# and through C07's join_cancelled at VERIF_SEED=5, where it is recorded as KF-C07-arm-only-sink-graph-abandoned)
 G_COND_OUT = {"profile": "greedy", "opts": {"p_batch_loader": 0, "p_conditionals": 1.0, "p_side_output": 0.7,
-                                            "p_enforce": 0.1, "p_drop": 0.1}}
-CH_COND_OUT = {"profile": "chaos", "opts": {"p_batch_loader": 0, "p_conditionals": 1.0, "p_side_output": 0.7}}
-PROPS["C07"]["streams"] = PROPS["C07"]["streams"] + [G_COND_OUT, CH_COND_OUT]
-for _p in ("C05", "C06", "C08", "C18"):
-    PROPS[_p]["streams"] = PROPS[_p]["streams"] + [G_COND_OUT]
+                                            "p_enforce": 0.0, "p_drop": 0.0, "p_zero_runtime": 0.0}}
+PROPS["C07"]["streams"] = PROPS["C07"]["streams"] + [G_COND_OUT, G_COND_OUT]
 
 # ------------------------------------------------------------------ requests that name a resource instance by its id, next to generic ones
 G_IDS = {"profile": "greedy", "opts": {"p_batch_loader": 0, "p_id_specific": 0.5}}
